@@ -74,6 +74,32 @@ def build_harness(avx2=False):
     return BIN_AVX2 if avx2 else BIN
 
 
+CLI_DIR = os.path.join(HARNESS, "target-cli")
+
+
+def build_cli():
+    """Builds vibrato's command-line tools from /repo's working tree into the harness' own target
+    directory (nothing is written under /repo)."""
+    os.makedirs(WORK, exist_ok=True)
+    lock = open(os.path.join(WORK, "build.lock"), "w")
+    fcntl.flock(lock, fcntl.LOCK_EX)
+    try:
+        env = dict(os.environ)
+        env["CARGO_NET_OFFLINE"] = "true"
+        env["CARGO_TARGET_DIR"] = CLI_DIR
+        t0 = time.time()
+        p = subprocess.run(["cargo", "build", "--release", "--offline", "-p", "compile", "-p", "tokenize", "-p", "map", "-p", "train", "-p", "dictgen"],
+                           cwd="/repo", env=env, stdout=subprocess.PIPE, stderr=subprocess.STDOUT, text=True)
+        if p.returncode != 0:
+            log(p.stdout[-3000:])
+            raise ToolError("building the command-line tools failed")
+        log("[build] command-line tools ok in %.1fs" % (time.time() - t0))
+    finally:
+        fcntl.flock(lock, fcntl.LOCK_UN)
+        lock.close()
+    return os.path.join(CLI_DIR, "release")
+
+
 def cpu_has_avx2():
     try:
         return " avx2" in open("/proc/cpuinfo").read()
